@@ -66,6 +66,11 @@ MUTANTS = [
       ("                unique_extractors.update(extractors)", "                self._selection.update(extractors)"),
       ("            unique_extractors, key=lambda e: self._extractor_order[id(e)]", "            self._selection, key=lambda e: self._extractor_order[id(e)]")],
      None, ["C15"]),
+    ("hash-found-reporter", "eyecite/models.py", '                            "reporter": self.corrected_reporter(),', '                            "reporter": self.groups["reporter"],', ["C16"]),
+    ("hash-includes-year", "eyecite/models.py", '                            "class": type(self).__name__,\n                        },\n                    }\n                )\n            )\n\n    @dataclass(eq=True, unsafe_hash=True)\n    class Metadata(FullCitation.Metadata):\n        """Define fields on self.metadata."""\n\n        # court',
+     '                            "class": type(self).__name__,\n                            "year": self.year,\n                        },\n                    }\n                )\n            )\n\n    @dataclass(eq=True, unsafe_hash=True)\n    class Metadata(FullCitation.Metadata):\n        """Define fields on self.metadata."""\n\n        # court', ["C16"]),
+    ("hash-placeholder-by-value", "eyecite/models.py", '        if self.groups["page"] is None:\n            return id(self)\n        else:\n            return hash(', '        if False:\n            return id(self)\n        else:\n            return hash(', ["C16", "C06"]),
+    ("hash-ignores-class", "eyecite/models.py", '                            "reporter": self.corrected_reporter(),\n                            "class": type(self).__name__,', '                            "reporter": self.corrected_reporter(),', ["C16"]),
 ]
 
 
